@@ -105,6 +105,13 @@ def _impl(tier, seed, search):
                         if len(got_) == 3:
                             for k_ in range(3): L.close(f'Twist3(multi).{nm_}', got_[k_], np.asarray(want_[k_], float), TOL, max(1.0, float(np.max(np.abs(want_[k_])))), dict(inp, k=k_),
                                                         what=f'value {k_} of {nm_} on a 3-valued Twist3 is not {nm_} of twist {k_}', sig=f'Twist3(multi).{nm_}')
+            # several twists and the scalar angle 0 (in any spelling): one identity per twist
+            if i % 5 == 3:
+                for z_ in (0, 0.0, -0.0):
+                    ok2, r = L.noraise('Twist3(multi).exp(0)', lambda: [np.asarray(x_, float) for x_ in Twist3([S.S, Twist3.Prismatic(geom.axis_scaled(g)).S, S.S * 0.5]).exp(z_).data], dict(inp, theta=z_), 'exp(0) of a 3-valued Twist3', sig='Twist3(multi):exp-inv:raises')
+                    if ok2:
+                        L.check('Twist3(multi).exp(0):len', len(r) == 3, dict(inp, theta=z_), f'exp(0) of a 3-valued Twist3 gives {len(r)} values', sig='Twist3(multi).exp(theta)')
+                        for x_ in r: L.close('Twist3(multi).exp(0)', x_, np.eye(4), TOL, 1.0, dict(inp, theta=z_), sig='Twist3(multi).exp(theta)')
             # several unit twists with one angle each (vector theta of the same length): motion k is exp(theta_k S_k)
             if i % 5 == 2:
                 def multi_exp_vec():
@@ -161,6 +168,23 @@ def _impl(tier, seed, search):
         q2 = q[:2]
         ok, S2 = L.noraise('Twist2.Revolute', lambda: Twist2.Revolute(q2), dict(q=q2), 'Twist2.Revolute(q)')
         if ok:
+            # small angles about a far centre (|q| ~ 1e3, 1e-4 .. 1e-2 rad): the centre stays put to 1e-9 of its distance
+            if i % 6 == 2:
+                qf_ = g.normal(size=2); qf_ = qf_ / np.linalg.norm(qf_) * float(g.uniform(500, 1000)); Sf_ = Twist2.Revolute(qf_)
+                for thf_ in (0.009, -0.005, 0.003, 1e-3, 3e-4):
+                    ok2, Tf = L.noraise('Twist2.exp(small angle, far centre)', lambda: (Sf_.exp(thf_).A, Sf_.exp([thf_, 2 * thf_])[1].A, (Sf_ * thf_).exp().A), dict(q=qf_, theta=thf_), 'planar exp about a far centre')
+                    if ok2:
+                        for nm_, Tm_, tt_ in (('exp(theta)', Tf[0], thf_), ('exp([.., theta])', Tf[1], 2 * thf_), ('(S*theta).exp()', Tf[2], thf_)):
+                            L.close(f'Twist2:point-fixed(far, small angle) {nm_}', Tm_[:2, :2] @ qf_ + Tm_[:2, 2], qf_, TOL, float(np.linalg.norm(qf_)), dict(q=qf_, theta=tt_), what='planar exp(theta S) moves a far centre of rotation for a small angle', sig='Twist2:point-fixed')
+                            L.close(f'Twist2:angle(far, small angle) {nm_}', Tm_[:2, :2], inputs.r2(tt_), TOL, 1.0, dict(q=qf_, theta=tt_), sig='Twist2:point-fixed')
+                # a scalar on the left of a twist holding several values scales each of them (as S * k does)
+                Sm2_ = Twist2([Twist2.Revolute(q2).S, Twist2.Prismatic(g.normal(size=2)).S])
+                for kk_ in (2.5, 3, -1.5):
+                    ok2, rk = L.noraise('k * Twist2(multi)', lambda: ([np.asarray(x_, float) for x_ in (kk_ * Sm2_).data], [np.asarray(x_, float) for x_ in (Sm2_ * kk_).data]), dict(k=kk_), 'scalar * multi-valued Twist2', sig='k*Twist2(multi):raises')
+                    if ok2:
+                        L.check('k*Twist2(multi):len', len(rk[0]) == 2, dict(k=kk_), f'{kk_} * (Twist2 holding 2 values) holds {len(rk[0])} values', sig='k*Twist2(multi)')
+                        if len(rk[0]) == 2:
+                            for j_ in range(2): L.close('k*Twist2(multi)', rk[0][j_], np.asarray(Sm2_.data[j_], float) * kk_, TOL, 5.0, dict(k=kk_, j=j_), sig='k*Twist2(multi)'); L.close('Twist2(multi)*k', rk[1][j_], np.asarray(Sm2_.data[j_], float) * kk_, TOL, 5.0, dict(k=kk_, j=j_), sig='k*Twist2(multi)')
             ok2, T = L.noraise('Twist2.exp', lambda: S2.exp(th).A, dict(q=q2, theta=th), 'Twist2.exp(theta)')
             if ok2:
                 L.close('Twist2:point-fixed', T[:2, :2] @ q2 + T[:2, 2], q2, TOL, qs, dict(q=q2, theta=th), what='planar exp(theta S) moves the centre of rotation')
